@@ -124,6 +124,12 @@ func (e *Env) noteJobEnded(j *JobInfo, err error) {
 }
 
 func (e *Env) onLoopSend(msg loop.Msg) {
+	switch msg.(type) {
+	case loop.BatchMsg, loop.SequenceMsg:
+		// plumbing: the commands of a batch park at their own Send with a semantic label; batches
+		// themselves carry opaque funcs and cannot be told apart, so they are not scheduling points
+		return
+	}
 	label := msgLabel(msg)
 	e.mu.Lock()
 	node := e.curTier1
@@ -317,6 +323,10 @@ func (e *Env) tier1StreamFactory(rr *reqRun) service.StreamFactoryFunc {
 	return func(ctx context.Context, h bstream.Handler, startBlockNum int64, stopBlockNum uint64, cursor string, finalBlocksOnly bool, cursorIsTarget bool, logger *zap.Logger, extraOpts ...bsstream.Option) (service.Streamable, error) {
 		pipe := unwrapPipeline(h)
 		rr.res.Handoff = snapshotStores(pipe)
+		if os.Getenv("SIM_TRACE_STORES") == "1" {
+			fmt.Printf("HANDOFF at %d: %s\n", startBlockNum, fmtStores(rr.res.Handoff))
+			rr.obs = traceObs{}
+		}
 		rr.res.HandoffAt = uint64(startBlockNum)
 		return &simStream{env: e, node: rr.node, h: h, pipe: pipe, start: uint64(startBlockNum), stop: stopBlockNum, finalMax: rr.spec.Final, obs: rr.obs}, nil
 	}
@@ -439,5 +449,23 @@ func sortedStoreNames(m map[string]StoreState) []string {
 		out = append(out, k)
 	}
 	sort.Strings(out)
+	return out
+}
+
+type traceObs struct{}
+
+func (traceObs) AfterStep(pipe *pipeline.Pipeline, blk *CBlock, step bstream.StepType, err error) {
+	fmt.Printf("T1 after %s %s err=%v: %s\n", blk.ID, step, err, fmtStores(snapshotStores(pipe)))
+}
+
+func fmtStores(m map[string]StoreState) string {
+	out := ""
+	for _, n := range sortedStoreNames(m) {
+		out += n + "{"
+		for _, k := range sortedKeysB(m[n].KV) {
+			out += fmt.Sprintf("%s=%q ", k, m[n].KV[k])
+		}
+		out += fmt.Sprintf("size=%d} ", m[n].Size)
+	}
 	return out
 }
